@@ -30,6 +30,7 @@ class Observation:
         self.state_at_stop = None
         self.partial_was_incremental = False
         self.partial_error = None
+        self.closed_after_raise = False
         self.result_step = None
         self.stop_step = None
 
@@ -119,6 +120,14 @@ def run_incremental(schema, doc, variables, value_fn, seed, p_async=0.5, policy=
                     break
                 except BaseException as e:  # noqa: BLE001
                     obs.raised, obs.raised_at = e, f'pull#{k}'
+                    if (seed + k) % 2 == 0:
+                        # a tidy consumer closes the stream it stops reading (try/finally, aclosing()): closing a stream
+                        # that has already raised must be a no-op, in particular no second clean-up
+                        obs.closed_after_raise = True
+                        try:
+                            await it.aclose()
+                        except BaseException as e2:  # noqa: BLE001
+                            obs.partial_error = e2
                     break
                 obs.payloads.append(p.formatted)
                 k += 1
